@@ -1127,13 +1127,19 @@ class ThermalBC:
         Returns:
           function: appropriate interpolation function
         """
-        base = inter.RegularGridInterpolator(
-            self._generate_surface_mesh(),
-            data,
+        times, ts, zs = self._generate_surface_mesh()
+        # Close the circumferential grid so the seam cell interpolates
+        # between the last and the first column
+        closed = inter.RegularGridInterpolator(
+            (times, np.append(ts, 2.0 * np.pi), zs),
+            np.concatenate((data, data[:, :1]), axis=1),
             method="linear",
             bounds_error=False,
             fill_value=None,
         )
+
+        def base(x):
+            return closed([x[0], np.mod(x[1], 2.0 * np.pi), x[2]])
 
         return _make_ifn(base)
 
